@@ -16,10 +16,10 @@ RULE = ('seeded generator: non-negative images 1..40 per side of any aspect rati
         'sample and extent > 0.')
 ASSUMPTIONS = ['a reference convolution whose minimum is above -1e-12*max counts as non-negative']
 PLAN = {'quick': {'gen': 8}, 'thorough': {'gen': 16, 'tests': 1, 'docs': 1}}
-REQUIRED_BUCKETS = ['pixel', 'jitter', 'smear', 'shape:square', 'shape:nonsquare', 'shape:odd', 'shape:even', 'img:smooth',
+REQUIRED_BUCKETS = ['img:faint', 'img:bright', 'pixel', 'jitter', 'smear', 'shape:square', 'shape:nonsquare', 'shape:odd', 'shape:even', 'img:smooth',
                     'img:spiky', 'conv:nonneg', 'extent:0', 'translate', 'units', 'sequence', 'img:integer']
 REQUIRED_ANCHORS = ['probe:pixel', 'probe:jitter', 'probe:smear']
-REQUIRED_ORACLES = ['blur:shape', 'blur>=0', 'blur=conv', 'blur:total', 'translate', 'identity', 'units']
+REQUIRED_ORACLES = ['blur:shape', 'blur>=0', 'blur=conv', 'blur:total', 'translate', 'identity', 'units', 'homogeneous']
 
 
 def transfer(kind, shape, p):
@@ -133,12 +133,18 @@ def workload(ctx, lentil):
             shape = (int(rng.integers(1, hi + 1)), int(rng.integers(1, hi + 1)))
         smooth = bool(rng.random() < 0.6)
         img = image(rng, shape, smooth)
+        mag = 0
+        if i % 4 == 3:
+            # absolute magnitude is a matter of units (irradiance of a faint star in W, photon counts of a bright one)
+            mag = int(rng.integers(-40, 31))
+            img = img * 10.0 ** mag
         os_ = int(rng.integers(1, 7))
         ps = float(rng.uniform(2e-6, 2e-5)) if rng.random() < 0.5 else 1
         zero = rng.random() < 0.12
         ext = 0.0 if zero else float(rng.uniform(0.05, 10))       # in samples
         bks = [kind, 'shape:square' if shape[0] == shape[1] else 'shape:nonsquare', 'shape:odd' if shape[0] % 2 else 'shape:even',
-               'img:smooth' if smooth else 'img:spiky'] + (['extent:0'] if zero else [])
+               'img:smooth' if smooth else 'img:spiky'] + (['extent:0'] if zero else []) + \
+            (['img:faint'] if mag < -14 else []) + (['img:bright'] if mag > 8 else [])
         if kind == 'pixel':
             if zero:
                 os_ = 1          # a 1-sample pixel on a critically sampled image: sinc(f) on |f| <= 1/2 (not the identity)
@@ -165,6 +171,16 @@ def workload(ctx, lentil):
             ctx.close('identity', out, img, 1e-12, f'{kind}|identity', 'a blur of zero extent is not the identity', desc, scale=sc_)
         else:
             ctx.oracle_evals['identity'] += 0
+        # homogeneity: a convolution commutes with a change of units
+        if i % 5 == 0:
+            cfac = 10.0 ** int(rng.integers(-30, 20))
+            try:
+                with np.errstate(all='ignore'):
+                    outc = call(img * cfac)
+                ctx.close('homogeneous', outc / cfac, out, 1e-10, f'{kind}|homogeneous', 'blur(c*img) differs from c*blur(img)',
+                          dict(desc, c=cfac), scale=sc_)
+            except Exception as e:
+                ctx.check(False, 'homogeneous', f'{kind}|homogeneous|raises={type(e).__name__}', str(e), desc)
         # translation equivariance on the torus
         dr, dc = int(rng.integers(-shape[0], shape[0] + 1)), int(rng.integers(-shape[1], shape[1] + 1))
         ctx.bucket('translate')
